@@ -32,13 +32,13 @@ CLAIMED = {
  'C16': dict(
    technique='runtime monitoring: crash-point fault injection + differential twins (uncrashed original vs fresh object + export) + the C06/C07/C08/C12 monitors continuing on the restored object',
    level='fault_enumeration',
-   text='120 k (quick) / 6 M (thorough) histories under persistent sessions are cut at a random crash point; the export (get_stored_packets, get_qos2_publish_handled) goes into a fresh object - before the handshake, or (one case in three) between CONNECT and CONNACK; both reconnect with session present and receive the same peer continuation (ack for every exported packet, duplicate/PUBREL/new message for every handled id): retransmission lists and continuation traces must be equal, exported ids must be unregisterable, and the store/id/flow/QoS2 monitors (initialised from the export) must stay silent on the restored object incl. 12 further random operations. Malformed exports (duplicate ids, wrong-version and QoS 0 entries) must be skipped without panic and leave a consistent store.',
+   text='120 k (quick) / 6 M (thorough) histories under persistent sessions are cut at a random crash point; the export (get_stored_packets, get_qos2_publish_handled) goes into a fresh object - before the handshake, or (one case in three) between CONNECT and CONNACK; both reconnect with session present and receive the same peer continuation (ack for every exported packet, duplicate/PUBREL/new message for every handled id): retransmission lists and continuation traces must be equal, exported ids must be unregisterable, and the store/id/flow/QoS2 monitors (initialised from the export) must stay silent on the restored object incl. 12 further random operations. Malformed exports (duplicate ids, wrong-version and QoS 0 entries) must be skipped without panic, leave a consistent store, and the kept entries must resume normally: retransmitted, acknowledged, released (E5).',
    note='Trusted: as C06-C08/C12; application-held ids die with the process; an exchange between PUBREC and the application\'s PUBREL is not part of the export.',
    design='DESIGN.md §4 C16'),
  'C17': dict(
    technique='runtime monitoring over an exhaustively enumerated finite matrix (receive gating) + differential twins (Undetermined vs fixed-version server)',
    level='exploration',
-   text='All 1536 cells role path x version x status x 16 type nibbles x {minimal valid body, empty body} x id width on a primed persistent session: kinds the remote side may never send must yield an error, no delivery, no response and an unchanged session (public view and digest); CONNECT/CONNACK on an established connection likewise, swept over the contents of the second handshake packet (every CONNACK reason/return code x session present x limit-renegotiating properties; CONNECT clean start x keep alive x client id x properties; ~900 cells). Undetermined server: all 256 values of the CONNECT protocol-level byte in both body layouts, and the 15 other packet types as first packet in the minimal form of both versions. 300 k (quick) / 10 M (thorough) seeded driver histories run against an Undetermined server and a fixed-version server must give identical call-by-call traces.',
+   text='All 1536 cells role path x version x status x 16 type nibbles x {minimal valid body, empty body} x id width on a primed persistent session: kinds the remote side may never send must yield an error, no delivery, no response and an unchanged session (public view and digest); CONNECT/CONNACK on an established connection likewise - reported as a protocol error by error kind and DISCONNECT reason code -, swept over the contents of the second handshake packet (every CONNACK reason/return code x session present x limit-renegotiating properties; CONNECT clean start x keep alive x client id x properties; ~900 cells). Undetermined server: all 256 values of the CONNECT protocol-level byte in both body layouts, and the 15 other packet types as first packet in the minimal form of both versions. 300 k (quick) / 10 M (thorough) seeded driver histories run against an Undetermined server and a fixed-version server must give identical call-by-call traces.',
    note='Trusted: DESIGN Appendix B.',
    design='DESIGN.md §4 C17, Appendix B'),
  'C05': dict(
@@ -50,7 +50,7 @@ CLAIMED = {
  'C06': dict(
    technique='runtime monitoring: online reference-model monitor over call records of seeded random histories (generic driver, hostile peer, small alphabets), every call under catch_unwind in the overflow-checks build',
    level='exploration',
-   text='Store shadow with allowed transitions: an accepted QoS>0 PUBLISH is sent or stored (S1), stored under a persistent session (S2), the exported store changes only for a cause (matching ack, erase, oversize drop, new session) and otherwise equals the shadow after EVERY call (S3), stored packets hold their id (S9), only the matching acknowledgement is accepted (S6), retransmission after CONNACK equals the store in order with DUP, full topic, no alias and before any other packet (S4), session-not-present empties it (S5), every PUBLISH/PUBREL requested for sending is exactly one well-formed frame of the announced size (S10), the stored copy is the accepted packet: the topic the application meant, no alias, same QoS/RETAIN/payload/properties (S12). About 5% of the v5 packets carry a property section at the 127/128 length-prefix boundary, 8% of the acks carry properties.',
+   text='Store shadow with allowed transitions: an accepted QoS>0 PUBLISH is sent or stored (S1), stored under a persistent session (S2), the exported store changes only for a cause (matching ack, erase, oversize drop, new session) and otherwise equals the shadow after EVERY call (S3), stored packets hold their id (S9), only the matching acknowledgement is accepted (S6), retransmission after CONNACK equals the store in order with DUP, full topic, no alias and before any other packet (S4), session-not-present empties it (S5), every PUBLISH/PUBREL requested for sending is exactly one well-formed frame of the announced size (S10), the PUBLISH passed on is the accepted one in QoS, RETAIN, DUP, id, payload and other properties (S13), the stored copy is the accepted packet: the topic the application meant, no alias, same QoS/RETAIN/payload/properties (S12). About 5% of the v5 packets carry a property section at the 127/128 length-prefix boundary, 8% of the acks carry properties.',
    note='Trusted: the reference model of DESIGN Appendix F (written from the property statements, updated only from calls, returned events and public probes) and the application contract of DESIGN §3.3. The hook digest is only used to read the in-use id set faster; the same clause is re-checked black-box by register()/release() probing on a sample of calls.',
    design='DESIGN.md §4 + Appendix F'),
  'C07': dict(
@@ -62,7 +62,7 @@ CLAIMED = {
  'C08': dict(
    technique='runtime monitoring: online reference-model monitor over call records of seeded random histories (generic driver, hostile peer, small alphabets), every call under catch_unwind in the overflow-checks build; black-box id probing',
    level='exploration',
-   text='In-use set model + ownership model: acquire returns a free id (P1), register succeeds iff free and in range (P2), a release is announced only for an in-use id and never twice (P3), the real in-use set (hook, cross-checked by register/release probing) equals the model after EVERY call (P4: no silent free, no leak), completion/refusal/close release exactly the ids the statement names (P5a-c), release_packet_id is total incl. 0 and free ids (P7), an id is released by erase only when its exchange ends (P10), every stored packet dropped as oversize on resume has its id released (P9). Directed workloads: all 65535 ids in use at once / exhaustion / smallest-first (P6); one exchange in every stage (awaiting PUBACK, PUBREC, bare PUBREL, PUBREL with properties) resumed under 17 Maximum Packet Size values x automatic responses on/off.',
+   text='In-use set model + ownership model: acquire returns a free id (P1), register succeeds iff free and in range (P2), a release is announced only for an in-use id and never twice (P3), the real in-use set (hook, cross-checked by register/release probing) equals the model after EVERY call (P4: no silent free, no leak), completion/refusal/close release exactly the ids the statement names (P5a-c), release_packet_id is total incl. 0 and free ids (P7), an id is released by erase only when its exchange ends (P10), every stored packet dropped as oversize on resume has its id released (P9), the release-on-send-error hint names the packets own id iff the packet is not stored (P11). Directed workloads: all 65535 ids in use at once / exhaustion / smallest-first (P6); one exchange in every stage (awaiting PUBACK, PUBREC, bare PUBREL, PUBREL with properties) resumed under 17 Maximum Packet Size values x automatic responses on/off.',
    note='Trusted: the reference model of DESIGN Appendix F (written from the property statements, updated only from calls, returned events and public probes) and the application contract of DESIGN §3.3. The hook digest is only used to read the in-use id set faster; the same clause is re-checked black-box by register()/release() probing on a sample of calls.',
    design='DESIGN.md §4 + Appendix F'),
  'C12': dict(
@@ -74,7 +74,7 @@ CLAIMED = {
  'C13': dict(
    technique='runtime monitoring: online reference-model monitor over call records of seeded random histories (generic driver, hostile peer, small alphabets), every call under catch_unwind in the overflow-checks build',
    level='exploration',
-   text="Independent model of the RECEIVER's alias table built from the outgoing packet stream: an empty topic is only sent with an alias in range that an earlier PUBLISH actually sent on this connection bound to the intended topic (AL1-AL3), stored/retransmitted copies carry full topic and no alias (AL4), inbound aliased publishes resolve to what the peer bound or are rejected (AL5, AL6), an alias-only PUBLISH is accepted for queueing only with a binding made on the current connection and is stored under the topic the application meant (AL7, AL4); manual, auto-map, auto-replace, refusals in between, reconnects, server publishing before CONNACK; regulate_for_store() probed with every PUBLISH about to be sent (AL8); directed: 45 topics in three scattered rounds through send tables of 2..40 entries.",
+   text="Independent model of the RECEIVER's alias table built from the outgoing packet stream: an empty topic is only sent with an alias in range that an earlier PUBLISH actually sent on this connection bound to the intended topic (AL1-AL3), stored/retransmitted copies carry full topic and no alias (AL4), inbound aliased publishes resolve to what the peer bound or are rejected (AL5, AL6), an alias-only PUBLISH is accepted for queueing only with a binding made on the current connection and is stored under the topic the application meant (AL7, AL4); manual, auto-map, auto-replace, refusals in between, reconnects, server publishing before CONNACK; regulate_for_store() probed with every PUBLISH about to be sent (AL8); every packet delivered to the application serialises to size() bytes that frame themselves (AL9); the size-boundary workload of C14 with small follow-up publishes is judged under C13 too; directed: 45 topics in three scattered rounds through send tables of 2..40 entries.",
    note='Trusted: the reference model of DESIGN Appendix F (written from the property statements, updated only from calls, returned events and public probes) and the application contract of DESIGN §3.3. The hook digest is only used to read the in-use id set faster; the same clause is re-checked black-box by register()/release() probing on a sample of calls.',
    design='DESIGN.md §4 + Appendix F'),
  'C14': dict(
